@@ -33,7 +33,7 @@ mod proofs {
         let sub: bool = kani::any();
         let mut r = c1.clone();
         if sub { ev.sub_inplace(&mut r, &c2); } else { ev.add_inplace(&mut r, &c2); }
-        kani::cover!(sub && p >= L1 && bv != 0);
+        kani::cover!(sub && bv != 0 && (L2 <= L1 || p >= L1));
         assert!(r.size() == lmax / 2 && r.data().len() == lmax && r.coeff_modulus_size() == 1 && r.poly_modulus_degree() == 2);
         assert!(*r.parms_id() == pid && r.is_ntt_form() == ntt && r.correction_factor() == 1 && r.scale() == 1.0);
         let e = if sub { (av + q - bv) % q } else { (av + bv) % q };
@@ -41,7 +41,7 @@ mod proofs {
         assert!(c2.data()[if p < L2 { p } else { 0 }] == b[if p < L2 { p } else { 0 }]);
     }
 
-    // @harness id=C02 tier=quick unwind=10 timeout=1500 fs=4096 
+    // @harness id=C02 tier=quick unwind=14 timeout=1500 fs=4096 
     // @desc Evaluator::add_inplace / sub_inplace on BFV ciphertexts of sizes (2,2): every residue of the result is a+b resp. a-b of the zero-extended operands (so phase_out = phase_1 +- phase_2 for every secret key), size = max, level/form/scale/correction factor preserved, second operand unchanged
     // @bounds BFV N=2, q={97}, t=3 (literal context of the real HeContext::new); all canonical operand residues; coefficient or NTT representation symbolic; add or sub symbolic; one residue position checked symbolically
     // @funcs Evaluator::translate_inplace, Evaluator::add_inplace, Evaluator::sub_inplace, Evaluator::check_ciphertext, Ciphertext::is_valid_for, Ciphertext::resize, polysmallmod::add_inplace_ps, polysmallmod::sub_inplace_ps
@@ -57,7 +57,7 @@ mod proofs {
         std::mem::forget(ev); std::mem::forget(ctx);
     }
 
-    // @harness id=C02 tier=quick unwind=10 timeout=1500 fs=4096 kf=sub_larger_second_operand
+    // @harness id=C02 tier=quick unwind=14 timeout=1500 fs=4096 kf=sub_larger_second_operand
     // @desc Evaluator::add_inplace / sub_inplace on BFV ciphertexts of sizes (2,3): every residue of the result is a+b resp. a-b of the zero-extended operands (so phase_out = phase_1 +- phase_2 for every secret key), size = max, level/form/scale/correction factor preserved, second operand unchanged
     // @bounds BFV N=2, q={97}, t=3 (literal context of the real HeContext::new); all canonical operand residues; coefficient or NTT representation symbolic; add or sub symbolic; one residue position checked symbolically
     // @funcs Evaluator::translate_inplace, Evaluator::add_inplace, Evaluator::sub_inplace, Evaluator::check_ciphertext, Ciphertext::is_valid_for, Ciphertext::resize, polysmallmod::add_inplace_ps, polysmallmod::sub_inplace_ps
@@ -73,7 +73,7 @@ mod proofs {
         std::mem::forget(ev); std::mem::forget(ctx);
     }
 
-    // @harness id=C02 tier=quick unwind=10 timeout=1500 fs=4096 
+    // @harness id=C02 tier=quick unwind=14 timeout=1500 fs=4096 
     // @desc Evaluator::add_inplace / sub_inplace on BFV ciphertexts of sizes (3,2): every residue of the result is a+b resp. a-b of the zero-extended operands (so phase_out = phase_1 +- phase_2 for every secret key), size = max, level/form/scale/correction factor preserved, second operand unchanged
     // @bounds BFV N=2, q={97}, t=3 (literal context of the real HeContext::new); all canonical operand residues; coefficient or NTT representation symbolic; add or sub symbolic; one residue position checked symbolically
     // @funcs Evaluator::translate_inplace, Evaluator::add_inplace, Evaluator::sub_inplace, Evaluator::check_ciphertext, Ciphertext::is_valid_for, Ciphertext::resize, polysmallmod::add_inplace_ps, polysmallmod::sub_inplace_ps
@@ -89,7 +89,7 @@ mod proofs {
         std::mem::forget(ev); std::mem::forget(ctx);
     }
 
-    // @harness id=C02 tier=quick unwind=10 timeout=1500 fs=4096 
+    // @harness id=C02 tier=quick unwind=14 timeout=1500 fs=4096 
     // @desc Evaluator::add_inplace / sub_inplace on BFV ciphertexts of sizes (3,3): every residue of the result is a+b resp. a-b of the zero-extended operands (so phase_out = phase_1 +- phase_2 for every secret key), size = max, level/form/scale/correction factor preserved, second operand unchanged
     // @bounds BFV N=2, q={97}, t=3 (literal context of the real HeContext::new); all canonical operand residues; coefficient or NTT representation symbolic; add or sub symbolic; one residue position checked symbolically
     // @funcs Evaluator::translate_inplace, Evaluator::add_inplace, Evaluator::sub_inplace, Evaluator::check_ciphertext, Ciphertext::is_valid_for, Ciphertext::resize, polysmallmod::add_inplace_ps, polysmallmod::sub_inplace_ps
@@ -105,7 +105,7 @@ mod proofs {
         std::mem::forget(ev); std::mem::forget(ctx);
     }
 
-    // @harness id=C02 tier=quick unwind=10 timeout=1500 fs=4096 kf=sub_larger_second_operand
+    // @harness id=C02 tier=quick unwind=14 timeout=1500 fs=4096 kf=sub_larger_second_operand
     // @desc Evaluator::add_inplace / sub_inplace on BFV ciphertexts of sizes (2,4): every residue of the result is a+b resp. a-b of the zero-extended operands (so phase_out = phase_1 +- phase_2 for every secret key), size = max, level/form/scale/correction factor preserved, second operand unchanged
     // @bounds BFV N=2, q={97}, t=3 (literal context of the real HeContext::new); all canonical operand residues; coefficient or NTT representation symbolic; add or sub symbolic; one residue position checked symbolically
     // @funcs Evaluator::translate_inplace, Evaluator::add_inplace, Evaluator::sub_inplace, Evaluator::check_ciphertext, Ciphertext::is_valid_for, Ciphertext::resize, polysmallmod::add_inplace_ps, polysmallmod::sub_inplace_ps
@@ -135,7 +135,7 @@ mod proofs {
         mk_ciphertext(L / 4, 2, 2, d.to_vec(), pid, scale, ntt, cf)
     }
 
-    // @harness id=C02 tier=quick unwind=10 timeout=900 fs=4096
+    // @harness id=C02 tier=quick unwind=14 timeout=900 fs=4096
     // @desc Evaluator::negate_inplace / negate_new: every residue becomes q - a (0 stays 0), metadata preserved, both forms agree
     // @bounds BFV N=2, q={97}; sizes 2 and 3; all canonical residues; representation symbolic
     // @funcs Evaluator::negate_inplace, Evaluator::negate_new, polysmallmod::negate_inplace_ps
@@ -158,28 +158,32 @@ mod proofs {
         std::mem::forget(ev); std::mem::forget(ctx);
     }
 
-    // @harness id=C02 tier=quick unwind=12 timeout=900
+    // @harness id=C02 tier=quick unwind=20 timeout=1800
     // @desc balance_correction_factors(f1, f2, t) returns (f, e1, e2) with e1*f1 = e2*f2 = f (mod t) and e1 invertible mod t -- the relation BGV addition needs so that both operands decrypt under the common factor f
-    // @bounds t = 17 (prime) and t = 16 (power of two; factors restricted to units); all factor pairs 1 <= f1, f2 < t; unwind 12 covers the extended-Euclid loop (<= 6 steps below 17) and the nested gcd recursion
+    // @bounds t = 17: ALL 256 factor pairs 1 <= f1, f2 < 17 (enumerated by the symbolic executor as concrete cases: the Euclid loop with symbolic operands exhausts CBMC's memory); unwind 20 covers the pair loops and the <= 6 Euclid steps
     // @funcs Evaluator::balance_correction_factors, try_invert_u64_mod, multiply_u64_mod, barrett_reduce_u64, gcd
     #[kani::proof]
     fn c02_balance_correction_factors() {
-        let tsel: bool = kani::any();
-        let t: u64 = if tsel { 17 } else { 16 };
-        let m = crate::modulus::verif_v::mk_modulus(t, tsel);
-        let f1: u8 = kani::any(); let f2: u8 = kani::any();
-        kani::assume(f1 >= 1 && (f1 as u64) < t && f2 >= 1 && (f2 as u64) < t);
-        if !tsel { kani::assume(f1 & 1 == 1 && f2 & 1 == 1); }
-        let (f, e1, e2) = Evaluator::balance_correction_factors(f1 as u64, f2 as u64, &m);
-        kani::cover!(e1 != 1 && e2 != 1);
-        assert!(f < t && e1 < t && e2 < t && f != 0);
-        assert!((e1 * f1 as u64) % t == f && (e2 * f2 as u64) % t == f);
-        assert!(crate::util::gcd(e1, t) == 1);
+        let t: u64 = 17;
+        let m = crate::modulus::verif_v::mk_modulus(t, true);
+        let mut f1 = 1u64;
+        while f1 < t {
+            let mut f2 = 1u64;
+            while f2 < t {
+                let (f, e1, e2) = Evaluator::balance_correction_factors(f1, f2, &m);
+                assert!(f < t && e1 < t && e2 < t && f != 0);
+                assert!((e1 * f1) % t == f && (e2 * f2) % t == f);
+                assert!(crate::util::gcd(e1, t) == 1);
+                f2 += 1;
+            }
+            f1 += 1;
+        }
+        kani::cover!(true);
     }
 
-    // @harness id=C02 tier=quick unwind=12 timeout=1800 fs=4096
+    // @harness id=C02 tier=quick unwind=14 timeout=1800 fs=4096
     // @desc BGV addition/subtraction of ciphertexts carrying DIFFERENT correction factors: result residues = e1*a +- e2*b and result factor f, where (f, e1, e2) = balance_correction_factors(f1, f2); so result/f decrypts to a/f1 +- b/f2
-    // @bounds BGV N=2, q={97,113}, t=17; sizes (2,2); all canonical residues; factors f1 != f2 symbolic in 1..16; NTT form (BGV default)
+    // @bounds BGV N=2, q={97,113}, t=17; sizes (2,2); all canonical residues; factor pairs (1,2), (3,5), (16,7), (9,1) (concrete per case; all 256 pairs of the balancing function itself: c02_balance_correction_factors); NTT form (BGV default)
     // @funcs Evaluator::translate_inplace (factor-balancing branch), polysmallmod::multiply_scalar_inplace_ps, Evaluator::balance_correction_factors
     // @stubs HeContext::get_context_data -> linear search over the literal chain (HashMap lookup outside the claim); alloc::sync::Arc::drop_slow -> no-op (memory reclamation outside the claim)
     #[kani::proof]
@@ -189,29 +193,56 @@ mod proofs {
         let ctx = lits::ctx_bgv_n2_2p1();
         let ev = mk_evaluator(ctx.clone());
         let pid = *ctx.first_parms_id();
+        let fc: u8 = kani::any();
+        match fc { 0 => bgv_factor_case(&ev, pid, 1, 2), 1 => bgv_factor_case(&ev, pid, 3, 5), 2 => bgv_factor_case(&ev, pid, 16, 7), _ => bgv_factor_case(&ev, pid, 9, 1) }
+        std::mem::forget(ev); std::mem::forget(ctx);
+    }
+    fn bgv_factor_case(ev: &Evaluator, pid: ParmsID, f1: u64, f2: u64) {
         let a = sym2::<8>(); let b = sym2::<8>();
-        let f1: u8 = kani::any(); let f2: u8 = kani::any();
-        kani::assume(f1 >= 1 && f1 < 17 && f2 >= 1 && f2 < 17 && f1 != f2);
-        let c1 = ct2(&a, pid, true, f1 as u64, 1.0); let c2 = ct2(&b, pid, true, f2 as u64, 1.0);
+        let c1 = ct2(&a, pid, true, f1, 1.0); let c2 = ct2(&b, pid, true, f2, 1.0);
         let sub: bool = kani::any();
         let mut r = c1.clone();
         if sub { ev.sub_inplace(&mut r, &c2); } else { ev.add_inplace(&mut r, &c2); }
         let m = crate::modulus::verif_v::mk_modulus(17, true);
-        let (f, e1, e2) = Evaluator::balance_correction_factors(f1 as u64, f2 as u64, &m);
+        let (f, e1, e2) = Evaluator::balance_correction_factors(f1, f2, &m);
         let p: usize = kani::any(); kani::assume(p < 8);
         let q = q2(p);
         let ea = (a[p] * e1) % q; let eb = (b[p] * e2) % q;
         kani::cover!(sub && e1 > 1);
+        kani::cover!(!sub && e2 > 1);
         assert!(r.correction_factor() == f);
         assert!(r.data()[p] == if sub { (ea + q - eb) % q } else { (ea + eb) % q });
-        assert!(c2.correction_factor() == f2 as u64 && c2.data()[p] == b[p]);
-        std::mem::forget(ev); std::mem::forget(ctx);
+        assert!(c2.correction_factor() == f2 && c2.data()[p] == b[p]);
     }
 
-    // @harness id=C02 tier=quick unwind=12 timeout=1800 fs=4096
-    // @desc BGV multiplication of two size-2 ciphertexts in NTT form: slot-wise c0 = a0*b0, c1 = a0*b1 + a1*b0, c2 = a1*b1 (the coefficients of (a0 + a1 s)(b0 + b1 s)), correction factor = f1*f2 mod t, size 3, second operand unchanged; square gives the same as multiply by itself
-    // @bounds BGV N=2, q={97,113}, t=17; all canonical residues; factors 1..16; one slot position symbolic
-    // @funcs Evaluator::multiply_inplace, Evaluator::bgv_multiply, Evaluator::square_inplace, Evaluator::bgv_square, polysmallmod::dyadic_product_p, polysmallmod::add_inplace_p
+    /// tensor product check: output polynomial k, slot p must be sum_{i+j=k} a_i[p]*b_j[p] (NTT form, slot-wise)
+    fn bgv_mul_case<const L1: usize, const L2: usize>(ev: &Evaluator, pid: ParmsID, square: bool) {
+        let a = sym2::<L1>(); let b = sym2::<L2>();
+        let c1 = ct2(&a, pid, true, 3, 1.0); let c2 = ct2(&b, pid, true, 5, 1.0);
+        let mut r = c1.clone();
+        if square { ev.square_inplace(&mut r); } else { ev.multiply_inplace(&mut r, &c2); }
+        let (s1, s2) = (L1 / 4, if square { L1 / 4 } else { L2 / 4 });
+        let k: usize = kani::any(); let p: usize = kani::any(); kani::assume(k < s1 + s2 - 1 && p < 4);
+        let q = q2(p);
+        let mut e = 0u64; let mut i = 0;
+        while i < s1 {
+            if k >= i && k - i < s2 {
+                let bj = if square { a[(k - i) * 4 + p] } else { b[(k - i) * 4 + p] };
+                e = (e + a[i * 4 + p] * bj) % q;
+            }
+            i += 1;
+        }
+        kani::cover!(k == s1 + s2 - 2 && e != 0);
+        assert!(r.size() == s1 + s2 - 1 && r.data().len() == (s1 + s2 - 1) * 4 && r.is_ntt_form() && *r.parms_id() == pid);
+        assert!(r.data()[k * 4 + p] == e);
+        assert!(r.correction_factor() == if square { 9 } else { 15 });
+        assert!(c2.size() == L2 / 4 && c2.data()[p] == b[p]);
+    }
+
+    // @harness id=C02 tier=quick unwind=14 timeout=2400 fs=4096
+    // @desc BGV multiplication of two size-2 ciphertexts in NTT form: output polynomial k is slot-wise sum_{i+j=k} a_i*b_j (the coefficients of (a0 + a1 s)(b0 + b1 s)), size 3, correction factor = product of the factors mod t, second operand unchanged
+    // @bounds BGV N=2, q={97,113}, t=17; sizes (2,2); all canonical residues; correction factors 3 and 5; output polynomial and slot symbolic
+    // @funcs Evaluator::multiply_inplace, Evaluator::bgv_multiply, polysmallmod::dyadic_product_p, polysmallmod::add_inplace_p
     // @stubs HeContext::get_context_data -> linear search over the literal chain (HashMap lookup outside the claim); alloc::sync::Arc::drop_slow -> no-op (memory reclamation outside the claim)
     #[kani::proof]
     #[kani::stub(crate::context::HeContext::get_context_data, crate::context::verif_v::get_context_data_stub)]
@@ -219,32 +250,44 @@ mod proofs {
     fn c02_bgv_multiply_2x2() {
         let ctx = lits::ctx_bgv_n2_2p1();
         let ev = mk_evaluator(ctx.clone());
-        let pid = *ctx.first_parms_id();
-        let a = sym2::<8>(); let b = sym2::<8>();
-        let f1: u8 = kani::any(); let f2: u8 = kani::any();
-        kani::assume(f1 >= 1 && f1 < 17 && f2 >= 1 && f2 < 17);
-        let c1 = ct2(&a, pid, true, f1 as u64, 1.0); let c2 = ct2(&b, pid, true, f2 as u64, 1.0);
-        let mut r = c1.clone();
-        ev.multiply_inplace(&mut r, &c2);
-        let p: usize = kani::any(); kani::assume(p < 4);     // position inside one polynomial (modulus-major)
-        let q = q2(p);
-        let (a0, a1, b0, b1) = (a[p], a[4 + p], b[p], b[4 + p]);
-        kani::cover!(a1 != 0 && b1 != 0);
-        assert!(r.size() == 3 && r.data().len() == 12 && r.is_ntt_form());
-        assert!(r.data()[p] == (a0 * b0) % q);
-        assert!(r.data()[4 + p] == (a0 * b1 + a1 * b0) % q);
-        assert!(r.data()[8 + p] == (a1 * b1) % q);
-        assert!(r.correction_factor() == (f1 as u64 * f2 as u64) % 17);
-        assert!(c2.data()[p] == b0 && c2.size() == 2);
-        let mut sq = c1.clone(); ev.square_inplace(&mut sq);
-        assert!(sq.size() == 3 && sq.data()[p] == (a0 * a0) % q && sq.data()[4 + p] == (2 * a0 * a1) % q && sq.data()[8 + p] == (a1 * a1) % q);
-        assert!(sq.correction_factor() == (f1 as u64 * f1 as u64) % 17);
+        bgv_mul_case::<8, 8>(&ev, *ctx.first_parms_id(), false);
         std::mem::forget(ev); std::mem::forget(ctx);
     }
 
-    // @harness id=C03 tier=quick unwind=12 timeout=1800 fs=4096
+    // @harness id=C02 tier=quick unwind=14 timeout=2400 fs=4096
+    // @desc BGV multiplication with operands of DIFFERENT sizes, larger operand first (3,2): all four output polynomials are the full tensor-product sums
+    // @bounds BGV N=2, q={97,113}, t=17; sizes (3,2); all canonical residues
+    // @funcs Evaluator::multiply_inplace, Evaluator::bgv_multiply
+    // @stubs HeContext::get_context_data -> linear search over the literal chain (HashMap lookup outside the claim); alloc::sync::Arc::drop_slow -> no-op (memory reclamation outside the claim)
+    #[kani::proof]
+    #[kani::stub(crate::context::HeContext::get_context_data, crate::context::verif_v::get_context_data_stub)]
+    #[kani::stub(alloc::sync::Arc::drop_slow, crate::verif_v::arc_drop_slow_noop)]
+    fn c02_bgv_multiply_3x2() {
+        let ctx = lits::ctx_bgv_n2_2p1();
+        let ev = mk_evaluator(ctx.clone());
+        bgv_mul_case::<12, 8>(&ev, *ctx.first_parms_id(), false);
+        std::mem::forget(ev); std::mem::forget(ctx);
+    }
+
+    // @harness id=C02 tier=thorough unwind=14 timeout=3000 fs=4096
+    // @desc BGV multiplication with sizes (2,3) and squaring of a size-2 ciphertext (= multiplication by itself)
+    // @bounds BGV N=2, q={97,113}, t=17; case chosen symbolically
+    // @funcs Evaluator::multiply_inplace, Evaluator::bgv_multiply, Evaluator::square_inplace, Evaluator::bgv_square
+    // @stubs HeContext::get_context_data -> linear search over the literal chain (HashMap lookup outside the claim); alloc::sync::Arc::drop_slow -> no-op (memory reclamation outside the claim)
+    #[kani::proof]
+    #[kani::stub(crate::context::HeContext::get_context_data, crate::context::verif_v::get_context_data_stub)]
+    #[kani::stub(alloc::sync::Arc::drop_slow, crate::verif_v::arc_drop_slow_noop)]
+    fn c02_bgv_multiply_2x3_and_square() {
+        let ctx = lits::ctx_bgv_n2_2p1();
+        let ev = mk_evaluator(ctx.clone());
+        let c: bool = kani::any();
+        if c { bgv_mul_case::<8, 12>(&ev, *ctx.first_parms_id(), false) } else { bgv_mul_case::<8, 8>(&ev, *ctx.first_parms_id(), true) }
+        std::mem::forget(ev); std::mem::forget(ctx);
+    }
+
+    // @harness id=C03 tier=quick unwind=14 timeout=1800 fs=4096
     // @desc CKKS multiplication: same slot-wise product as BGV and the recorded scale is EXACTLY the IEEE product of the operand scales; ciphertexts not in NTT form are refused elsewhere
-    // @bounds CKKS N=2, q={97,113}; sizes (2,2); all canonical residues; scales = 2^k1, 2^k2 with k1,k2 in 0..5 (the bound check goes through f64::log2, kept to exact powers of two)
+    // @bounds CKKS N=2, q={97,113}; sizes (2,2); all canonical residues; scales 8 and 32 (the bound check goes through f64::log2: exact powers of two, concrete)
     // @funcs Evaluator::multiply_inplace, Evaluator::ckks_multiply, Evaluator::is_scale_within_bounds
     // @stubs HeContext::get_context_data -> linear search over the literal chain (HashMap lookup outside the claim); alloc::sync::Arc::drop_slow -> no-op (memory reclamation outside the claim)
     #[kani::proof]
@@ -254,26 +297,27 @@ mod proofs {
         let ctx = lits::ctx_ckks_n2_2p1();
         let ev = mk_evaluator(ctx.clone());
         let pid = *ctx.first_parms_id();
+        ckks_scale_case(&ev, pid, 8.0, 32.0);
+        std::mem::forget(ev); std::mem::forget(ctx);
+    }
+    fn ckks_scale_case(ev: &Evaluator, pid: ParmsID, s1: f64, s2: f64) {
         let a = sym2::<8>(); let b = sym2::<8>();
-        let k1: u8 = kani::any(); let k2: u8 = kani::any(); kani::assume(k1 < 6 && k2 < 6);
-        let s1 = (1u64 << k1) as f64; let s2 = (1u64 << k2) as f64;
         let c1 = ct2(&a, pid, true, 1, s1); let c2 = ct2(&b, pid, true, 1, s2);
         let mut r = c1.clone();
         ev.multiply_inplace(&mut r, &c2);
         let p: usize = kani::any(); kani::assume(p < 4);
         let q = q2(p);
-        kani::cover!(k1 + k2 > 6);
+        kani::cover!(a[p] != 0 && b[4 + p] != 0);
         assert!(r.scale().to_bits() == (s1 * s2).to_bits());
         assert!(r.size() == 3 && r.data()[4 + p] == (a[p] * b[4 + p] + a[4 + p] * b[p]) % q);
         assert!(r.correction_factor() == 1 && *r.parms_id() == pid);
-        std::mem::forget(ev); std::mem::forget(ctx);
     }
 
     fn crt2(r0: u64, r1: u64) -> u64 { // x < 97*113 with x = r0 mod 97, x = r1 mod 113; 113^-1 mod 97 = 91
         r1 + 113 * ((((r0 + 97 * 2 - r1 % 97) % 97) * 91) % 97)
     }
 
-    // @harness id=C05 tier=quick unwind=12 timeout=1800 fs=4096
+    // @harness id=C05 tier=quick unwind=14 timeout=1800 fs=4096
     // @desc BFV mod_switch_to_next (value-returning and in-place forms): the result sits exactly on the next level, every remaining residue is round(x / q_last) mod q_0 of the CRT-composed input coefficient, size/form kept, scale 1, correction factor 1; the input is unchanged
     // @bounds BFV N=2, chain {97,113} -> {97}, t=17; size 2 and 3 (two cases); all canonical residues; one coefficient position symbolic
     // @funcs Evaluator::mod_switch_to_next_new, Evaluator::mod_switch_to_next_inplace, Evaluator::mod_switch_scale_to_next_internal, RNSTool::divide_and_round_q_last_inplace, Ciphertext::resize
@@ -307,7 +351,7 @@ mod proofs {
         assert!(src.data()[poly * 4 + k] == a[poly * 4 + k] && *src.parms_id() == pid);
     }
 
-    // @harness id=C05 tier=quick unwind=12 timeout=1800 fs=4096
+    // @harness id=C05 tier=quick unwind=14 timeout=1800 fs=4096
     // @desc CKKS: mod_switch_to_next DROPS the last prime (residues of the remaining primes unchanged, scale unchanged) while rescale_to_next divides by it (scale = old / q_last exactly, data = NTT-form rounding division); both land exactly on the next level
     // @bounds CKKS N=2, chain {97,113} -> {97}; size 2; all canonical residues; scale 2^k, k in 1..6
     // @funcs Evaluator::mod_switch_to_next_new, Evaluator::mod_switch_drop_to_next_internal, Evaluator::rescale_to_next_new, Evaluator::mod_switch_scale_to_next_internal, RNSTool::divide_and_round_q_last_ntt_inplace
@@ -340,7 +384,7 @@ mod proofs {
         std::mem::forget(ev); std::mem::forget(ctx); std::mem::forget(cd);
     }
 
-    // @harness id=C05 tier=quick unwind=12 timeout=1800 fs=4096
+    // @harness id=C05 tier=quick unwind=14 timeout=1800 fs=4096
     // @desc BGV mod_switch_to_next: lands on the next level, data = the BGV divide-by-last-prime kernel per polynomial, and the correction factor is multiplied by q_last^-1 mod t (bookkeeping that keeps the plaintext unchanged)
     // @bounds BGV N=2, chain {97,113} -> {97}, t=17; size 2; all canonical residues; correction factor 1..16
     // @funcs Evaluator::mod_switch_to_next_new, Evaluator::mod_switch_scale_to_next_internal, RNSTool::mod_t_and_divide_q_last_ntt_inplace, RNSTool::inv_q_last_mod_t
@@ -369,7 +413,7 @@ mod proofs {
         std::mem::forget(ev); std::mem::forget(ctx); std::mem::forget(cd);
     }
 
-    // @harness id=C05 tier=quick unwind=8 timeout=1800 fs=4096 kf=rescale_to_never_terminates
+    // @harness id=C05 tier=quick unwind=14 timeout=1800 fs=4096 kf=rescale_to_never_terminates
     // @desc rescale_to(ct, target) TERMINATES and ends exactly on the requested level (here: one level down)
     // @bounds CKKS N=2, chain {97,113} -> {97}; source = first level, target = last level; unwind 8 > chain length + 1: a loop that does not end within the chain length fails the unwinding assertion
     // @funcs Evaluator::rescale_to_new, Evaluator::rescale_to
@@ -391,7 +435,7 @@ mod proofs {
         std::mem::forget(ev); std::mem::forget(ctx);
     }
 
-    // @harness id=C05 tier=quick unwind=8 timeout=1800 fs=4096
+    // @harness id=C05 tier=quick unwind=14 timeout=1800 fs=4096
     // @desc requests that cannot be served are refused (panic), never computed: mod switching past the last level, switching upward to a higher level, rescaling a BFV ciphertext
     // @bounds BFV N=2 chain {97,113} -> {97}; the three requests chosen symbolically; all canonical residues
     // @funcs Evaluator::mod_switch_to_next_inplace, Evaluator::mod_switch_to_inplace, Evaluator::rescale_to_next_inplace
@@ -413,7 +457,25 @@ mod proofs {
         kani::cover!(true, "AFTER: refused operation returned");
     }
 
-    // @harness id=C06 tier=quick unwind=10 timeout=1800 fs=4096
+    // @harness id=C05 tier=quick unwind=14 timeout=1800 fs=4096
+    // @desc rescaling is refused outside CKKS: a BGV ciphertext passed to rescale_to_next is refused (panic), never silently modulus-switched
+    // @bounds BGV N=2 chain {97,113} -> {97}; all canonical residues, NTT form
+    // @funcs Evaluator::rescale_to_next_inplace, Evaluator::rescale_to_next
+    // @expect panic:only supported for CKKS
+    // @stubs HeContext::get_context_data -> linear search over the literal chain (HashMap lookup outside the claim); alloc::sync::Arc::drop_slow -> no-op (memory reclamation outside the claim)
+    #[kani::proof]
+    #[kani::stub(crate::context::HeContext::get_context_data, crate::context::verif_v::get_context_data_stub)]
+    #[kani::stub(alloc::sync::Arc::drop_slow, crate::verif_v::arc_drop_slow_noop)]
+    fn c05_rescale_refused_for_bgv() {
+        let ctx = lits::ctx_bgv_n2_2p1();
+        let ev = mk_evaluator(ctx.clone());
+        let first = *ctx.first_parms_id();
+        let a = sym2::<8>(); let mut x = ct2(&a, first, true, 1, 1.0);
+        ev.rescale_to_next_inplace(&mut x);
+        kani::cover!(true, "AFTER: BGV rescale returned");
+    }
+
+    // @harness id=C06 tier=quick unwind=14 timeout=1800 fs=4096
     // @desc the three API forms of addition (in-place, destination-argument with a destination pre-filled with a DIFFERENT-sized ciphertext, value-returning) give field-wise identical results and leave both read-only operands unchanged; the result is valid for the context
     // @bounds BFV N=2, q={97}; sizes (2,3); destination pre-filled with an arbitrary size-3 NTT-flagged ciphertext; all canonical residues
     // @funcs Evaluator::add, Evaluator::add_new, Evaluator::add_inplace, Ciphertext::is_valid_for
@@ -442,7 +504,7 @@ mod proofs {
         std::mem::forget(ev); std::mem::forget(ctx);
     }
 
-    // @harness id=C06 tier=quick unwind=12 timeout=1800 fs=4096 kf=mod_switch_dest_stale_metadata
+    // @harness id=C06 tier=quick unwind=14 timeout=1800 fs=4096 kf=mod_switch_dest_stale_metadata
     // @desc mod_switch_to_next with a destination argument that previously held another ciphertext gives the same result (data AND scale / correction-factor metadata) as the value-returning form, and the result is valid for the context
     // @bounds BFV N=2, chain {97,113} -> {97}; size 2; destination pre-filled with a ciphertext whose scale and correction-factor fields are arbitrary; all canonical residues
     // @funcs Evaluator::mod_switch_to_next, Evaluator::mod_switch_to_next_new, Ciphertext::is_valid_for
@@ -469,36 +531,168 @@ mod proofs {
         std::mem::forget(ev); std::mem::forget(ctx);
     }
 
-    // @harness id=C06 tier=quick unwind=10 timeout=1800 fs=4096
-    // @desc an operand with exactly one corrupted field (a residue >= q, a foreign parms id, size 1 or 17, wrong degree, wrong modulus count, scale != 1 in BFV, correction factor != 1 in BFV, an unexpanded seed marker, buffer length mismatch) makes add_inplace refuse (panic) instead of computing
-    // @bounds BFV N=2, q={97}; second operand corrupted in one symbolically chosen way; first operand valid; all other residues canonical
+    // @harness id=C06 tier=quick unwind=14 timeout=1800 fs=4096
+    // @desc an operand with exactly one corrupted field (here: a residue >= q, or a foreign parms id; shape and metadata corruptions in the two sibling harnesses) makes add_inplace refuse (panic) instead of computing
+    // @bounds BFV N=2, q={97}; second operand corrupted (residue position and value, or parms-id bit pattern symbolic); first operand valid; all other residues canonical
     // @funcs Evaluator::add_inplace, Evaluator::check_ciphertext, Ciphertext::is_valid_for, Ciphertext::is_metadata_valid_for, Ciphertext::is_buffer_valid, Ciphertext::contains_seed
     // @expect panic:Invalid argument
     // @stubs HeContext::get_context_data -> linear search over the literal chain (HashMap lookup outside the claim); alloc::sync::Arc::drop_slow -> no-op (memory reclamation outside the claim)
     #[kani::proof]
     #[kani::stub(crate::context::HeContext::get_context_data, crate::context::verif_v::get_context_data_stub)]
     #[kani::stub(alloc::sync::Arc::drop_slow, crate::verif_v::arc_drop_slow_noop)]
-    fn c06_add_refuses_corrupted_operand() {
+    fn c06_add_refuses_corrupted_residue_or_id() { refuse_case(0, 2) }
+
+    // @harness id=C06 tier=quick unwind=14 timeout=1800 fs=4096
+    // @desc as c06_add_refuses_corrupted_residue_or_id for shape corruptions: size 1, wrong degree, wrong modulus count, buffer length mismatch
+    // @bounds BFV N=2, q={97}; corruption chosen symbolically among the four
+    // @funcs Evaluator::add_inplace, Evaluator::check_ciphertext, Ciphertext::is_metadata_valid_for, Ciphertext::is_buffer_valid
+    // @expect panic:Invalid argument
+    // @stubs HeContext::get_context_data -> linear search over the literal chain (HashMap lookup outside the claim); alloc::sync::Arc::drop_slow -> no-op (memory reclamation outside the claim)
+    #[kani::proof]
+    #[kani::stub(crate::context::HeContext::get_context_data, crate::context::verif_v::get_context_data_stub)]
+    #[kani::stub(alloc::sync::Arc::drop_slow, crate::verif_v::arc_drop_slow_noop)]
+    fn c06_add_refuses_corrupted_shape() { refuse_case(2, 6) }
+
+    // @harness id=C06 tier=quick unwind=14 timeout=1800 fs=4096
+    // @desc as c06_add_refuses_corrupted_residue_or_id for metadata corruptions: scale != 1 in BFV, correction factor != 1 in BFV, unexpanded seed marker
+    // @bounds BFV N=2, q={97}; corruption chosen symbolically among the three
+    // @funcs Evaluator::add_inplace, Evaluator::check_ciphertext, Ciphertext::is_metadata_valid_for, Ciphertext::contains_seed
+    // @expect panic:Invalid argument
+    // @stubs HeContext::get_context_data -> linear search over the literal chain (HashMap lookup outside the claim); alloc::sync::Arc::drop_slow -> no-op (memory reclamation outside the claim)
+    #[kani::proof]
+    #[kani::stub(crate::context::HeContext::get_context_data, crate::context::verif_v::get_context_data_stub)]
+    #[kani::stub(alloc::sync::Arc::drop_slow, crate::verif_v::arc_drop_slow_noop)]
+    fn c06_add_refuses_corrupted_metadata() { refuse_case(6, 9) }
+
+    fn refuse_case(lo: u8, hi: u8) {
         let ctx = lits::ctx_bfv_n2_1p();
         let ev = mk_evaluator(ctx.clone());
         let pid = *ctx.first_parms_id();
         let a = sym1::<4>(); let mut b = sym1::<4>();
         let mut c1 = ct1(&a, pid, false, 1, 1.0);
-        let which: u8 = kani::any();
+        let which: u8 = kani::any(); kani::assume(which >= lo && which < hi);
         let bad: u8 = kani::any();
-        let c2 = match which {
-            0 => { kani::assume(bad >= 97); let k: usize = kani::any(); kani::assume(k < 4); b[k] = bad as u64; ct1(&b, pid, false, 1, 1.0) }
-            1 => { let mut fp = pid; fp[0] ^= 1 + bad as u64; ct1(&b, fp, false, 1, 1.0) }
-            2 => mk_ciphertext(1, 1, 2, vec![b[0], b[1]], pid, 1.0, false, 1),
-            3 => mk_ciphertext(2, 1, 4, b.to_vec(), pid, 1.0, false, 1),
-            4 => mk_ciphertext(2, 2, 2, b.to_vec(), pid, 1.0, false, 1),
-            5 => ct1(&b, pid, false, 1, 2.0),
-            6 => { kani::assume(bad != 1); ct1(&b, pid, false, bad as u64, 1.0) }
-            7 => { b[2] = crate::text::CIPHERTEXT_SEED_FLAG; ct1(&b, pid, false, 1, 1.0) }
-            _ => mk_ciphertext(2, 1, 2, vec![b[0], b[1], b[2]], pid, 1.0, false, 1),
-        };
-        ev.add_inplace(&mut c1, &c2);
+        // every case builds its operand AND runs the operation inside its own arm (concrete shapes per path)
+        match which {
+            0 => { kani::assume(bad >= 97); let k: usize = kani::any(); kani::assume(k < 4); b[k] = bad as u64; let c2 = ct1(&b, pid, false, 1, 1.0); ev.add_inplace(&mut c1, &c2); }
+            1 => { let mut fp = pid; fp[0] ^= 1 + bad as u64; let c2 = ct1(&b, fp, false, 1, 1.0); ev.add_inplace(&mut c1, &c2); }
+            2 => { let c2 = mk_ciphertext(1, 1, 2, vec![b[0], b[1]], pid, 1.0, false, 1); ev.add_inplace(&mut c1, &c2); }
+            3 => { let c2 = mk_ciphertext(2, 1, 4, b.to_vec(), pid, 1.0, false, 1); ev.add_inplace(&mut c1, &c2); }
+            4 => { let c2 = mk_ciphertext(2, 2, 2, b.to_vec(), pid, 1.0, false, 1); ev.add_inplace(&mut c1, &c2); }
+            5 => { let c2 = mk_ciphertext(2, 1, 2, vec![b[0], b[1], b[2]], pid, 1.0, false, 1); ev.add_inplace(&mut c1, &c2); }
+            6 => { let c2 = ct1(&b, pid, false, 1, 2.0); ev.add_inplace(&mut c1, &c2); }
+            7 => { kani::assume(bad != 1); let c2 = ct1(&b, pid, false, bad as u64, 1.0); ev.add_inplace(&mut c1, &c2); }
+            _ => { b[2] = crate::text::CIPHERTEXT_SEED_FLAG; let c2 = ct1(&b, pid, false, 1, 1.0); ev.add_inplace(&mut c1, &c2); }
+        }
         kani::cover!(true, "AFTER: corrupted operand accepted");
+    }
+
+    fn tern(x: u8, q: u64) -> u64 { match x { 0 => 0, 1 => 1, _ => q - 1 } }
+    fn small(e: i8, q: u64) -> u64 { if e >= 0 { e as u64 } else { q - (-(e as i64)) as u64 } }
+    /// (a*b)(X) in Z_q[X]/(X^2+1), coefficient form
+    fn nmul2(a: [u64; 2], b: [u64; 2], q: u64) -> [u64; 2] { [(a[0] * b[0] + q * q - a[1] * b[1]) % q, (a[0] * b[1] + a[1] * b[0]) % q] }
+
+    // @harness id=C04 tier=quick unwind=14 timeout=3600 fs=4096
+    // @desc key-switching lemma at a LOWER level of the chain: for any key-switching key whose digit satisfies the RLWE relation ksk = (-(a*s) - e + P*s' [digit component], a) with arbitrary mask a and error |e| <= 21, switch_key_inplace_internal turns (c0, c1) into a ciphertext whose phase under s is phase_in + target*s' + delta with |delta| <= 30 (so relinearisation, Galois rotation and secret-key switching preserve the plaintext); the special prime's component and NTT table are the ones used for the extra RNS slot at every level
+    // @bounds BFV N=2, chain {97,113,193} (special prime 193), ciphertext at the LAST level {97} (decomposition size 1 < key size - 1); all ciphertext/target residues, all ternary s and s', all masks, all errors in [-21,21]
+    // @funcs Evaluator::switch_key_inplace_internal, polysmallmod::{ntt_lazy,intt_lazy,modulo,multiply_operand_inplace,add_inplace}, barrett_reduce_u128, PublicKey::is_valid_for
+    // @stubs HeContext::get_context_data -> linear search over the literal chain (HashMap lookup outside the claim); alloc::sync::Arc::drop_slow -> no-op (memory reclamation outside the claim)
+    #[kani::proof]
+    #[kani::stub(crate::context::HeContext::get_context_data, crate::context::verif_v::get_context_data_stub)]
+    #[kani::stub(alloc::sync::Arc::drop_slow, crate::verif_v::arc_drop_slow_noop)]
+    fn c04_key_switch_lemma_lower_level() {
+        use crate::key::verif_v::{mk_public_key, mk_kswitch_keys};
+        let ctx = lits::ctx_bfv_n2();
+        let ev = mk_evaluator(ctx.clone());
+        let key_pid = *ctx.key_parms_id(); let last = *ctx.last_parms_id();
+        let qs = [97u64, 113, 193];
+        let kcd = ctx.key_context_data().unwrap();
+        let tabs = kcd.small_ntt_tables();
+        // secret keys (coefficient form -> NTT form per key modulus with the real transform)
+        let sk: [u8; 4] = kani::any(); kani::assume(sk[0] < 3 && sk[1] < 3 && sk[2] < 3 && sk[3] < 3);
+        let er: [i8; 2] = kani::any(); kani::assume(er[0] >= -21 && er[0] <= 21 && er[1] >= -21 && er[1] <= 21);
+        let am: [u8; 6] = kani::any();
+        let mut c0 = [0u64; 6]; let mut c1 = [0u64; 6];
+        let mut m = 0;
+        while m < 3 {
+            let q = qs[m];
+            kani::assume((am[2 * m] as u64) < q && (am[2 * m + 1] as u64) < q);
+            let mut s_hat = [tern(sk[0], q), tern(sk[1], q)]; tabs[m].ntt_negacyclic_harvey(&mut s_hat);
+            let mut e_hat = [small(er[0], q), small(er[1], q)]; tabs[m].ntt_negacyclic_harvey(&mut e_hat);
+            let mut t_hat = [tern(sk[2], q), tern(sk[3], q)]; tabs[m].ntt_negacyclic_harvey(&mut t_hat);
+            let mut k = 0;
+            while k < 2 {
+                let a = am[2 * m + k] as u64;
+                let mut v = (q * q - (a * s_hat[k]) % q + q - e_hat[k]) % q;            // -(a*s) - e   (slot-wise in NTT form)
+                if m == 0 { v = (v + (193 % q) * t_hat[k]) % q; }                        // + P * s'  in the digit's own component
+                c0[2 * m + k] = v; c1[2 * m + k] = a;
+                k += 1;
+            }
+            m += 1;
+        }
+        let mut d0 = [0u64; 12]; let mut k = 0; while k < 6 { d0[k] = c0[k]; d0[6 + k] = c1[k]; k += 1; }
+        let digit0 = mk_public_key(mk_ciphertext(2, 3, 2, d0.to_vec(), key_pid, 1.0, true, 1));
+        let digit1 = mk_public_key(mk_ciphertext(2, 3, 2, vec![0; 12], key_pid, 1.0, true, 1));
+        let ksk = mk_kswitch_keys(key_pid, vec![vec![digit0, digit1]]);
+        // ciphertext and target at the last level (q = 97), coefficient form
+        let c = sym1::<4>(); let tg: [u8; 2] = kani::any(); kani::assume(tg[0] < 97 && tg[1] < 97);
+        let target = [tg[0] as u64, tg[1] as u64];
+        let mut enc = ct1(&c, last, false, 1, 1.0);
+        ev.switch_key_inplace_internal(&mut enc, &target, &ksk, 0);
+        let q = 97u64;
+        let s = [tern(sk[0], q), tern(sk[1], q)]; let sp = [tern(sk[2], q), tern(sk[3], q)];
+        let pin = nmul2([c[2], c[3]], s, q); let pout = nmul2([enc.data()[2], enc.data()[3]], s, q);
+        let tsp = nmul2(target, sp, q);
+        let i: usize = kani::any(); kani::assume(i < 2);
+        let phase_in = (c[i] + pin[i]) % q; let phase_out = (enc.data()[i] + pout[i]) % q;
+        let delta = (phase_out + 2 * q - phase_in - tsp[i]) % q;
+        kani::cover!(delta != 0 && tsp[i] != 0);
+        assert!(delta <= 30 || delta >= q - 30);
+        assert!(enc.size() == 2 && *enc.parms_id() == last && !enc.is_ntt_form());
+        std::mem::forget(ev); std::mem::forget(ctx); std::mem::forget(kcd);
+    }
+
+    // ---- rotation composition: apply_galois_inplace replaced by a recorder (the automorphism + key switch itself is decided by
+    //      c04_apply_is_substitution / c04_ntt_table_is_substitution / c04_key_switch_lemma_lower_level)
+    static mut GAL_ACC: usize = 1;
+    static mut GAL_CALLS: usize = 0;
+    fn apply_galois_recorder(_this: &Evaluator, _encrypted: &mut Ciphertext, galois_elt: usize, galois_keys: &GaloisKeys) {
+        assert!(galois_keys.has_key(galois_elt), "rotation requested a Galois element whose key is not present");
+        unsafe { GAL_ACC = (GAL_ACC * galois_elt) % 32; GAL_CALLS += 1; }
+    }
+
+    // @harness id=C04 tier=quick unwind=20 timeout=3600 fs=8192
+    // @desc rotate_internal composes ANY row-rotation step from the default power-of-two keys: the product of the Galois elements it applies equals get_elt_from_step(step) mod 2N (so the composed automorphism is the requested rotation), every element it requests has a key in the default set, and it never panics -- for every step with 0 < |step| < N/2, whether the key is present directly or the step is NAF-composed (including the +-N/2 NAF digits, which are the identity and must be skipped)
+    // @bounds BFV N=16 (row length 8), t=97; Galois keys = exactly get_elts_all(); every step in -7..7; apply_galois_inplace stubbed by a recorder
+    // @funcs Evaluator::rotate_internal, GaloisKeys::has_key, GaloisTool::get_elt_from_step, GaloisTool::get_elts_all, naf
+    // @stubs Evaluator::apply_galois_inplace -> recorder (multiplies the applied elements, checks key presence); HeContext::get_context_data -> linear search over the literal chain; alloc::sync::Arc::drop_slow -> no-op
+    #[kani::proof]
+    #[kani::stub(crate::context::HeContext::get_context_data, crate::context::verif_v::get_context_data_stub)]
+    #[kani::stub(alloc::sync::Arc::drop_slow, crate::verif_v::arc_drop_slow_noop)]
+    #[kani::stub(crate::evaluator::Evaluator::apply_galois_inplace, apply_galois_recorder)]
+    fn c04_rotation_composition() {
+        use crate::key::verif_v::{mk_public_key, mk_kswitch_keys, mk_galois_keys}; use crate::PublicKey;
+        let ctx = lits::ctx_bfv_n16_2p1();
+        let ev = mk_evaluator(ctx.clone());
+        let key_pid = *ctx.key_parms_id(); let first = *ctx.first_parms_id();
+        let cd = ctx.first_context_data().unwrap();
+        let gt = cd.galois_tool();
+        let elts = gt.get_elts_all();
+        // key table indexed by (elt - 1) / 2; present entries are non-empty (contents irrelevant for the recorder)
+        let mut keys: Vec<Vec<PublicKey>> = vec![vec![], vec![], vec![], vec![], vec![], vec![], vec![], vec![], vec![], vec![], vec![], vec![], vec![], vec![], vec![], vec![]];
+        let mut i = 0;
+        while i < elts.len() { keys[(elts[i] - 1) / 2] = vec![mk_public_key(Ciphertext::new())]; i += 1; }
+        let gk = mk_galois_keys(mk_kswitch_keys(key_pid, keys));
+        let mut ct = mk_ciphertext(2, 2, 16, vec![0; 64], first, 1.0, false, 1);
+        let step: isize = kani::any(); kani::assume(step >= -7 && step <= 7 && step != 0);
+        unsafe { GAL_ACC = 1; GAL_CALLS = 0; }
+        ev.rotate_internal(&mut ct, step, &gk);
+        let want = gt.get_elt_from_step(step);
+        kani::cover!(unsafe { GAL_CALLS } >= 2);
+        kani::cover!(step == -7);
+        assert!(unsafe { GAL_ACC } == want % 32);
+        assert!(unsafe { GAL_CALLS } >= 1);
+        std::mem::forget(ev); std::mem::forget(ctx); std::mem::forget(cd); std::mem::forget(gk);
     }
 
     #[cfg(test)] include!("/verif/.build/playback/evaluator_v.rs");
